@@ -546,6 +546,17 @@ func brokenHTTP() string {
 	zw.Close()
 	body := zb.Bytes()
 	brokenSrv = httptest.NewServer(http.HandlerFunc(func(w http.ResponseWriter, r *http.Request) {
+		// status codes a warehouse may answer with: /s<code>/...
+		if i := strings.Index(r.URL.Path, "/s"); i >= 0 && len(r.URL.Path) >= i+5 {
+			var code int
+			if _, e := fmt.Sscanf(r.URL.Path[i+2:i+5], "%d", &code); e == nil && code >= 200 && code < 600 {
+				if code/100 == 3 {
+					w.Header().Set("Location", r.URL.Path) // a redirect onto itself
+				}
+				w.WriteHeader(code)
+				return
+			}
+		}
 		if strings.HasSuffix(r.URL.Path, "/good.zip") {
 			w.Write(body)
 			return
@@ -637,6 +648,10 @@ func cliEngine(c *Ctx) {
 		[]string{"unpack", zid, "@W@/dst", "--source=@HTTP@/half.zip", "--placer=direct"}, []string{"unpack", zid, "@W@/dst", "--source=ca+@HTTP@/ca"},
 		[]string{"unpack", tid, "@W@/dst", "--source=@HTTP@/half.tgz"}, []string{"unpack", tid, "@W@/dst", "--source=ca+@HTTP@/ca", "--placer=copy"},
 		[]string{"mirror", zid, "--target=ca+file://@W@/wh", "--source=@HTTP@/half.zip"}, []string{"mirror", tid, "--target=ca+file://@W@/wh", "--source=ca+@HTTP@/ca"})
+	for _, code := range []string{"401", "403", "402", "407", "410", "418", "429", "451", "500", "502", "301", "302", "204", "206"} {
+		vecs = append(vecs, []string{"scan", "tar", "--source=@HTTP@/s" + code + "/w.tgz"}, []string{"unpack", tid, "@W@/dst", "--source=ca+@HTTP@/s" + code},
+			[]string{"--format=json", "mirror", zid, "--target=ca+file://@W@/wh", "--source=@HTTP@/s" + code + "/w.zip"})
+	}
 	for _, v := range vecs {
 		cliExec(c, mk(v...))
 	}
